@@ -22,7 +22,9 @@ FLOORS = {'*': {'search.compared': 20000, 'search.nonempty': 3000, 'backoff.used
 N = {'quick': 24, 'thorough': 800}
 STEMS = ['resume', 'Résumé', 'RESUME', 'résume', 'wolf', 'wolve', 'wolves', 'ax', 'axe', 'axis', 'axes', 'bus', 's', 'es', 'men',
          'man', 'big', 'bigge', 'bigger', 'San José', 'san jose', 'San Jose', 'ﬁsh', 'fish', 'run', 'runn', 'running', 'ox', 'oxen',
-         '情報', 'ネコ', 'e', 'y', 'ice cream', 'Ice Cream', 'ＡＢＣ', 'abc', '①', '1', 'straße', 'strasse', 'İ', 'i̇', 'o\'clock', 'a"b', 'x<y']
+         '情報', 'ネコ', 'e', 'y', 'ice cream', 'Ice Cream', 'ＡＢＣ', 'abc', '①', '1', 'straße', 'strasse', 'İ', 'i̇', 'o\'clock', 'a"b', 'x<y',
+         # marks of combining class 0 (not dropped by the normalizer) next to ones that are dropped
+         'कल', 'कुल', 'कं', 'กน', 'กิน', 'กัน', 'שָׁלוֹם', 'שלום', 'كَتَبَ', 'كتب', 'άλφα', 'αλφα', 'Việt', 'Viet', 'a\u20dd', 'a']
 SUFF = ['s', 'ces', 'ses', 'ves', 'ives', 'xes', 'zes', 'ches', 'shes', 'men', 'ies', 'es', 'ed', 'ing', 'er', 'est']
 POS = ['n', 'v', 'a', 's', 'r']
 
